@@ -37,6 +37,11 @@ type PlanLeader struct {
 
 // OpenPlanLeader opens a passthrough database with n partitions.
 func OpenPlanLeader(dir string, s *Schema, n int) (*PlanLeader, error) {
+	return OpenPlanLeaderT(dir, s, n, QuiesceTimeout)
+}
+
+// OpenPlanLeaderT is OpenPlanLeader with a chosen cluster query timeout.
+func OpenPlanLeaderT(dir string, s *Schema, n int, clusterQueryTimeout time.Duration) (*PlanLeader, error) {
 	pl := &PlanLeader{}
 	z, err := zenodb.NewDB(&zenodb.DBOpts{
 		Dir:                     dir,
@@ -44,7 +49,7 @@ func OpenPlanLeader(dir string, s *Schema, n int) (*PlanLeader, error) {
 		Passthrough:             true,
 		NumPartitions:           n,
 		ClusterQueryConcurrency: 64,
-		ClusterQueryTimeout:     QuiesceTimeout,
+		ClusterQueryTimeout:     clusterQueryTimeout,
 		Panic:                   func(v interface{}) { select {} },
 	})
 	if err != nil {
